@@ -34,8 +34,10 @@ CF = "xknx.cemi.cemi_frame"
 
 
 def constants(chk: Check, repo: Repo) -> None:
-    names = ["DO_NOT_REPEAT", "BROADCAST", "PRIORITY_MASK", "ACK_REQUESTED", "CONFIRM_ERROR", "HOP_COUNT_MASK", "EXTENDED_FRAME_FORMAT_MASK"]
+    names = ["RESERVED", "DO_NOT_REPEAT", "BROADCAST", "PRIORITY_MASK", "ACK_REQUESTED", "CONFIRM_ERROR", "HOP_COUNT_MASK", "EXTENDED_FRAME_FORMAT_MASK"]
     vals = {n: repo.module_const(FL, n) for n in names}
+    if not isinstance(vals["RESERVED"], int):
+        del vals["RESERVED"]  # no mask for the reserved bit: masks-cover reports it
     for n, v in vals.items():
         if not isinstance(v, int):
             raise AnalysisError(f"{FL}.{n} does not fold to an int")
@@ -48,7 +50,7 @@ def constants(chk: Check, repo: Repo) -> None:
     union = 0
     for v in allm.values():
         union |= v
-    chk.ob("masks-cover", site, union == 0xFFFF & ~(1 << 14), f"union of all control-field masks = {union:#06x}; required 0xbfff (all but the reserved bit 14)", key="masks-cover")
+    chk.ob("masks-cover", site, union == 0xFFFF, f"union of all control-field masks = {union:#06x}; required 0xffff (the reserved bit 14 has a mask of its own: it is kept as received)", key="masks-cover")
     po, ho, mh = repo.module_const(FL, "PRIORITY_OFFSET"), repo.module_const(FL, "HOP_COUNT_OFFSET"), repo.module_const(FL, "MAX_HOP_COUNT")
     chk.ob("mask-offset-agreement", site, vals["PRIORITY_MASK"] == 0b11 << po and vals["HOP_COUNT_MASK"] == 0b111 << ho and mh == 7 and vals["EXTENDED_FRAME_FORMAT_MASK"] == 0xF, f"PRIORITY_MASK=0b11<<{po}, HOP_COUNT_MASK=0b111<<{ho}, MAX_HOP_COUNT={mh}, EFF mask 0xF", key="mask-offset")
     for en, want in (("CEMIPriority", {0, 1, 2, 3}), ("CEMIFrameType", {0, 1}), ("CEMIAddressType", {0, 1})):
@@ -115,13 +117,14 @@ def flags_roundtrip(chk: Check, repo: Repo) -> None:
     paths2 = Explorer(cfg2, repo, am2.step).run(cfg2.entry, [], {})
     outs = [p.env.get("#ret") for p in paths2 if p.end == cfg2.exit]
     others = [p for p in paths2 if p.end != cfg2.exit]
-    mask = 0xFFFF & ~((1 << 15) | (1 << 14) | (1 << 7))
+    # the reserved bit 14 is kept: re-serialising a received frame may change nothing but the derived bits
+    mask = 0xFFFF & ~((1 << 15) | (1 << 7))
     ok = len(outs) == 1 and not others and B.eq(B.band(outs[0], mask), B.band(raw, mask)) is True
-    chk.ob("flags-roundtrip-identity", tk.site(), ok, f"to_knx(from_knx(ctrl)) = {outs[0] if outs else None!r}; required: ctrl on all bits but frame type (15), reserved (14), address type (7); other paths: {[(p.end_kind, p.env.get('#raised')) for p in others]}", key="flags-roundtrip")
+    chk.ob("flags-roundtrip-identity", tk.site(), ok, f"to_knx(from_knx(ctrl)) = {outs[0] if outs else None!r}; required: ctrl on all bits but frame type (15) and address type (7) - including the reserved bit 14; other paths: {[(p.end_kind, p.env.get('#raised')) for p in others]}", key="flags-roundtrip")
     # derived bits are left clear by the flags writer
     if len(outs) == 1:
-        clear = B.band(outs[0], (1 << 15) | (1 << 7) | (1 << 14))
-        chk.ob("flags-leave-derived-bits-clear", tk.site(), clear == 0, f"CEMIFlags.to_knx leaves frame type / address type / reserved bits clear ({clear!r})", key="flags-derived-clear")
+        clear = B.band(outs[0], (1 << 15) | (1 << 7))
+        chk.ob("flags-leave-derived-bits-clear", tk.site(), clear == 0, f"CEMIFlags.to_knx leaves frame type / address type bits clear ({clear!r})", key="flags-derived-clear")
     # hop count guard
     for hc, want in ((-1, "raise"), (0, "exit"), (7, "exit"), (8, "raise")):
         def hook3(e, env, hc=hc):
@@ -322,4 +325,4 @@ def run(chk: Check, repo: Repo) -> None:
     from .apci_common import received_pdus_can_be_serialised_again
     received_pdus_can_be_serialised_again(chk, repo)
     chk.rule("E8 mask/enum constant consistency; E2 bit-record evaluation of CEMIFlags.from_knx -> to_knx over a symbolic control field; E7 table of CEMILData.to_knx over NPDU-length cells; structural writer/reader layout agreement")
-    chk.assume("APDU octets beyond the TPCI merge round-trip per C05; addresses per C01; received frames carry the reserved control bit 14 as 0 (it is not kept)")
+    chk.assume("APDU octets beyond the TPCI merge round-trip per C05; addresses per C01")
